@@ -376,6 +376,11 @@ def coqchk_all(ck):
     ck.cov["coqchk"] = dict(modules=mods, rc=p.returncode, axioms=axioms,
                             type_in_type="relying on type-in-type: <none>" in out, unsafe_fixpoints="unsafe (co)fixpoints: <none>" in out,
                             positivity_assumed="positivity is assumed: <none>" in out)
+    if not os.environ.get("VERIF_REPO"):  # a record that survives later quick runs (evidence/C20.json is rewritten by each run)
+        import json, time
+        with open(os.path.join(vlib.VERIF, "coqchk_report.json"), "w") as f:
+            json.dump(dict(ck.cov["coqchk"], when=time.strftime("%Y-%m-%dT%H:%M:%SZ", time.gmtime()),
+                           command="coqchk -silent -o -Q coq DDP <all DDP.Props.Cxx>"), f, indent=1)
     allowed = {"functional_extensionality_dep", "sig_not_dec", "sig_forall_dec", "classic", "eq_rect_eq", "proof_irrelevance", "JMeq_eq"}
     foreign = [a for a in axioms if a.split(".")[-1] not in allowed]
     if p.returncode != 0 or foreign or not (ck.cov["coqchk"]["type_in_type"] and ck.cov["coqchk"]["unsafe_fixpoints"] and ck.cov["coqchk"]["positivity_assumed"]):
